@@ -38,6 +38,7 @@ import (
 	"io"
 	"net"
 	"os"
+	"reflect"
 	"runtime"
 	"strconv"
 	"strings"
@@ -272,6 +273,26 @@ func (st *stack) connIdx(id string) string {
 	return "?"
 }
 
+// pendingOf reads the connection's pending challenge without depending on the exact shape of the accessor
+// (GetPendingChallenge() string, or a variant that also returns who the challenge was issued for): the first string
+// result of the method, else the exported field.
+func pendingOf(ctl interface{}) string {
+	v := reflect.ValueOf(ctl)
+	if m := v.MethodByName("GetPendingChallenge"); m.IsValid() && m.Type().NumIn() == 0 {
+		for _, r := range m.Call(nil) {
+			if r.Kind() == reflect.String {
+				return r.String()
+			}
+		}
+	}
+	if v.Kind() == reflect.Ptr && !v.IsNil() {
+		if f := v.Elem().FieldByName("PendingChallenge"); f.IsValid() && f.Kind() == reflect.String {
+			return f.String()
+		}
+	}
+	return ""
+}
+
 func hmacHex(secret, challenge string) string {
 	h := hmac.New(sha256.New, []byte(secret))
 	h.Write([]byte(challenge))
@@ -390,7 +411,7 @@ func (st *stack) deliver(c int, payload []byte, isFC bool) string {
 	// every challenge issued is pending on this connection right after the step: number it in order of issue
 	ctl := st.sm.GetControlConnection(connID)
 	if ctl != nil {
-		st.chalIdx(ctl.GetPendingChallenge(), true)
+		st.chalIdx(pendingOf(ctl), true)
 		if id := ctl.GetClientID(); isFC && id != 0 && st.clientIdx(id) == "?" {
 			// a new identity was issued: the client learns the secret from the response; if the response
 			// could not be delivered we still record the server-side secret so that later terms are defined
@@ -457,7 +478,7 @@ func (st *stack) observe() string {
 		if ctl.IsAuthenticated() {
 			a = "1"
 		}
-		fmt.Fprintf(&sb, " %s/%s/%s", a, st.clientIdx(ctl.GetClientID()), st.chalIdx(ctl.GetPendingChallenge(), false))
+		fmt.Fprintf(&sb, " %s/%s/%s", a, st.clientIdx(ctl.GetClientID()), st.chalIdx(pendingOf(ctl), false))
 	}
 	sb.WriteString(" r")
 	for _, cl := range st.table {
